@@ -122,6 +122,12 @@ class RealServer:
                             else "-----BEGIN CERTIFICATE-----\nbm90IGEgY2VydA==\n-----END CERTIFICATE-----\n")
                 self.badfile = bad
                 kw["keyfile" if material == "garbageKey" else "certfile"] = bad
+            elif material == "der":
+                bad = os.path.normpath(os.path.join(root, "..", "vf-c20-der-%d.crt" % self.port))
+                with open(bad, "wb") as f:
+                    f.write(cert.der)
+                self.badfile = bad
+                kw["certfile"] = bad
         if locations is not None:
             kw["locations"] = locations
         self.cfg = ServerConfig(host="127.0.0.1", port=self.port, document_root=root, require_client_cert=(backend == "pyopenssl"), **kw)
@@ -334,6 +340,13 @@ def live(rep, rnd, thorough):
                             rep.violation({"formula": "PlaintextGetsNothing", "backend": p["backend"], "cert": p["cert"], "material": p["material"]},
                                           "%s backend, start-up under a fault (%s: certificate / key files that cannot be loaded, or a failing first bind): the server came up and %s without TLS obtained %r" % (
                                               p["backend"], p["material"], inp["kind"], got[:60]), None)
+                    if srv.listening and inp["kind"] == "tls" and inp["max"] <= 2:
+                        # a listener that came up although the material was odd is bound by the floor like any other
+                        ver, got = try_handshake(srv.port, inp["max"])
+                        if ver in (1, 2):
+                            rep.violation({"formula": "NoOldVersion", "backend": p["backend"], "cert": p["cert"], "material": p["material"]},
+                                          "%s backend, certificate material %s: the server came up and completed a TLS 1.%d handshake, answering %r" % (
+                                              p["backend"], p["material"], ver - 1, got[:30]), None)
                     continue
                 if inp["kind"] == "tls":
                     ver, got = try_handshake(srv.port, inp["max"])
